@@ -512,9 +512,35 @@ func (u *Unit) execSend(st *ast.SendStmt, env *Env) []Outcome {
 // hook for the closed-channel discipline (C15): overridden by opts of the unit
 func (u *Unit) sendCheck(env *Env, ch Term, at ast.Node) {}
 
+// select: any clause may be the one that proceeds (which ones are ready is a matter of schedules, not explored): one path per
+// clause - its communication (an event, as outside a select) followed by its body.  A break leaves the select.
 func (u *Unit) execSelect(st *ast.SelectStmt, env *Env) []Outcome {
-	unsup("select statement at %s", u.pos(st.Pos()))
-	return nil
+	var res []Outcome
+	for _, cc := range st.Body.List {
+		clause := cc.(*ast.CommClause)
+		e := env.clone()
+		outs := []Outcome{{env: e, kind: oNext}}
+		if clause.Comm != nil {
+			outs = u.exec(clause.Comm, e)
+		}
+		for _, o := range outs {
+			if o.kind != oNext {
+				res = append(res, o)
+				continue
+			}
+			for _, bo := range u.execBlock(clause.Body, o.env) {
+				if bo.kind == oBreak && bo.label == "" {
+					bo.kind = oNext
+				}
+				res = append(res, bo)
+			}
+		}
+	}
+	if len(st.Body.List) == 0 {
+		unsup("empty select (blocks forever)")
+	}
+	u.assumeUsed("select: every clause is considered possible; which communications are ready is not modelled")
+	return res
 }
 
 // for v := range ch: iteration k receives the k-th value rx[k] (a ghost sequence, arbitrary); the loop may end after any
